@@ -25,6 +25,15 @@ for pid in props:
     if pid in src["checks"]:
         continue
     na.append({"property_id": pid, "reason": src["not_applicable"].get(pid, "not yet built: planned in DESIGN.md 4 " + pid + "; no check is claimed until its specification and conformance harness exist")})
+# hook commits are read from the repository's history (subjects starting with "verif hooks")
+import subprocess
+try:
+    log = subprocess.run(["git", "-C", "/repo", "log", "--reverse", "--format=%h %s"], capture_output=True, text=True).stdout.splitlines()
+    hooks = [l for l in log if l.split(" ", 1)[1].startswith("verif hooks")]
+    if hooks:
+        src["hooks"]["source_commits"] = hooks
+except Exception:
+    pass
 m = {"version": 1, "setup_cmd": "bin/setup", "hooks": src["hooks"], "engines": src["engines"], "checks": checks,
      "notes": src["notes"], "not_applicable": na}
 json.dump(m, open(os.path.join(ROOT, "MANIFEST.json"), "w"), indent=1)
